@@ -78,13 +78,13 @@ func ParseSummary(out string) (*Summary, error) {
 	return s, nil
 }
 
-func (st *wstate) checkClean(i int, l *scen.Lifetime, lf *model.Life, rep *scen.Report, plan *model.CleanPlan, anyFault bool, touched map[string]bool) bool {
+func (st *wstate) checkClean(i int, l *scen.Lifetime, lf *model.Life, rep *scen.Report, plan *model.CleanPlan, anyFault bool, touched map[string]bool, readdirOnly bool) bool {
 	if rep.CleanPanic != "" {
 		return st.hit(viol("clean-panic", i, -1, "", []string{"C20"}, "Clean panicked: %s", tail2(rep.CleanPanic, 1500)))
 	}
 	cleanFault := false
 	for _, op := range rep.Ops {
-		if op.Seq > rep.CleanBegin && op.Fault {
+		if op.Seq > rep.CleanBegin && op.Fault && !readdirOnly {
 			cleanFault = true
 		}
 	}
